@@ -2,6 +2,7 @@ import Fix8Model.Codec.Model
 import Fix8Model.Codec.Clone
 import Fix8Model.Codec.SchemaUTEST
 import Fix8Model.Codec.SchemaFIX44
+import Fix8Model.Codec.RoundTripNorm
 import Drivers.Common
 namespace Drivers.CodecD
 open Fix8Model.Codec Fix8Model
@@ -165,6 +166,9 @@ def stepS (S : Schema) (line : String) : String :=
   match Drivers.words line with
   | "enc" :: w => withSpec S w fun _ ts m =>
       if !encodeFitsBuffer S ts m then "oob" else "wire " ++ Drivers.hex (encodeBuilt S ts m)
+  | "conf" :: w => withSpec S w fun _ ts m =>
+      -- is the built message inside the hypothesis of C01_roundtrip (as built) or of C01_roundtrip_norm (after normMsg)?
+      if RT.Conforms S ts m then "conf 1" else if RT.Conforms S ts (RT.normMsg m) then "conf n" else "conf 0"
   | "rt" :: w => withSpec S w fun _ ts m =>
       let wire := encodeBuilt S ts m
       "wire=" ++ Drivers.hex wire ++
